@@ -538,6 +538,17 @@ func execFnOther(c fnCase, _ core.Source) (res core.Result) {
 		}
 		var r col.CatalogLike[int, int]
 		desc := fmt.Sprintf("Extract(%s, the keys %v as a %s)", pairsString(pa), requested, c.Keys)
+		// an earlier call of the class function was refused half-way (no key sequence; a key sequence whose
+		// iteration fails): what it left behind must not show in the next call
+		lib.Call(func() {
+			earlier := C.Make()
+			for k := 0; k < 8; k++ {
+				earlier.SetValue(k, 900+k)
+			}
+			lib.Call(func() { C.Extract(earlier, nil) })
+			lib.Call(func() { C.Extract(earlier, failingKeys{}) })
+			lib.Call(func() { C.Merge(earlier, nil) })
+		})
 		p, payload := lib.Call(func() { r = C.Extract(cat, keys) })
 		if p || r == nil {
 			res.Violation = core.Violate("C16/Extract/panicked", "%s panicked or returned nil: %s", desc, lib.Short(payload))
@@ -805,4 +816,23 @@ func genKeyIdentity(s core.Source) keyIdentityCase {
 		}
 	}
 	return c
+}
+
+// failingKeys is a key sequence whose iteration fails after the first key
+type failingKeys struct{}
+
+func (failingKeys) AsArray() []int { return []int{0, 1} }
+func (failingKeys) GetSize() int   { return 2 }
+func (failingKeys) IsEmpty() bool  { return false }
+func (failingKeys) GetIterator() age.IteratorLike[int] {
+	return failingIterator{age.Iterator[int]().MakeFromArray([]int{0, 1, 2, 3})}
+}
+
+type failingIterator struct{ age.IteratorLike[int] }
+
+func (f failingIterator) GetNext() int {
+	if f.GetSlot() >= 2 {
+		panic("the key sequence could not be read")
+	}
+	return f.IteratorLike.GetNext()
 }
